@@ -3,15 +3,15 @@
 # /repo in turn; the quick check of the property they touch must stay silent (exit 0, no VIOLATION line).
 set -u
 ROOT="$(cd "$(dirname "${BASH_SOURCE[0]}")/.." && pwd)"
-if [ -n "$(git -C /repo status --porcelain --untracked-files=no)" ]; then echo "/repo is dirty, refusing"; exit 2; fi
-trap 'git -C /repo checkout -- . 2>/dev/null' EXIT
+if [ -n "$(git -C /repo status --porcelain)" ]; then echo "/repo is dirty, refusing"; exit 2; fi
+trap 'git -C /repo checkout -- . 2>/dev/null; git -C /repo clean -fdq -- src 2>/dev/null' EXIT
 bad=0
 for p in "$ROOT"/sensitivity/benign/*.diff; do
   name=$(basename "$p" .diff); prop=${name%%-*}
   if ! git -C /repo apply "$p" 2>/dev/null; then echo "SKIP   $name (patch does not apply)"; continue; fi
   if (cd /repo && cargo test --workspace --offline >/dev/null 2>&1 && cargo test --offline --all-features >/dev/null 2>&1); then tests=pass; else tests=FAIL; fi
   out=$("$ROOT/check" "$prop" --tier quick --out "$ROOT/sim/target/benign-$prop.json" 2>&1); code=$?
-  git -C /repo checkout -- .
+  git -C /repo checkout -- . ; git -C /repo clean -fdq -- src
   if [ $code = 0 ] && ! echo "$out" | grep -q "^VIOLATION"; then verdict=SILENT; else verdict="ALARM(exit $code)"; bad=$((bad+1)); fi
   printf "%-14s %-4s %-45s tests=%s  %s\n" "$verdict" "$prop" "$name" "$tests" "$(echo "$out" | grep -m1 '^violation' | cut -c1-200)"
 done
